@@ -476,3 +476,25 @@ pub fn script_rng(fire: bool, shard_draw: u64) {
     }
     vh::script_shards(std::iter::empty(), Some(shard_draw));
 }
+
+impl Handle {
+    /// A clone sharing in-memory state with `self` (threads of one process sharing a handle).
+    pub fn share(&self) -> Handle {
+        match self {
+            Handle::Plain(c) => Handle::Plain(c.clone()),
+            Handle::Sharded(c) => Handle::Sharded(c.clone()),
+            Handle::Stack(c, l) => Handle::Stack(c.clone(), l.clone()),
+            Handle::Ro(c, l) => Handle::Ro(c.clone(), l.clone()),
+        }
+    }
+
+    /// A lookup that hands back the raw file (not read, not inspected).
+    pub fn lookup_file(&self, key: &KeySpec) -> std::io::Result<Option<std::fs::File>> {
+        match self {
+            Handle::Plain(c) => c.get(&key.name),
+            Handle::Sharded(c) => c.get(key.key()),
+            Handle::Stack(c, _) => c.get(key.key()),
+            Handle::Ro(c, _) => c.get(key.key()),
+        }
+    }
+}
